@@ -86,6 +86,18 @@ def runErrorText : Thrown → String
   | .prim t => t
   | .errObj _ _ n m => errorToString n m
   | .obj t => t
+  | .errClass t => t
+
+/-- an uncaught exception always comes back as an error (never nil), with the text above -/
+def uncaughtErr (t : Thrown) : Option (Bool × String) :=
+  some ((match t with | .errObj .. => true | _ => false), runErrorText t)
+
+/-- a position in a file set: the file that contains idx (the set's own lookup rule: first file with
+    idx ≤ base + length), and the §7.3 position of offset idx − base in it -/
+def fileSetPosition : List (Int × Src) → Int → Option (Nat × Nat)
+  | [], _ => none
+  | (base, src) :: r, idx =>
+    if idx ≤ base + src.length then positionAt src (idx - base) else fileSetPosition r idx
 
 /-! ## traces -/
 
